@@ -19,7 +19,8 @@ class DefNet:
     @property
     def wires(self):
         ww = defaultdict(list)
-        [ww[dw.layer].append((int(dw.width), dw.wire_points)) for dw in self.routed if len(dw.wire_points) > 0]
+        # regular nets do not state a wire width (None), special nets do.
+        [ww[dw.layer].append((int(dw.width) if dw.width is not None else None, dw.wire_points)) for dw in self.routed if len(dw.wire_points) > 0]
         return ww
 
     @property
